@@ -21,6 +21,8 @@ bound: PATH_MAX scaled to 8; file, dir <= 9 characters, search path <= 8 charact
 unwind: 11
 timeout: 600
 funcs: spifconf_find_file
+native: c11_replay
+native_includes: conf.c
 */
 #include "vprelude.h"
 #undef  PATH_MAX
